@@ -154,5 +154,5 @@ LineSeq(s) ==
   IN [n \in 1..Len(crs) |->
         LET a == IF n = 1 THEN 1 ELSE crs[n-1] + 1
             b == crs[n] - 1
-        IN SelectSeq([i \in 1..(b - a + 1) |-> <<s[a+i-1][F_K], s[a+i-1][F_XV]>>], LAMBDA t : t[1] # BLANK)]
+        IN SelectSeq([i \in 1..(b - a + 1) |-> <<s[a+i-1][F_K], s[a+i-1][F_XV], s[a+i-1][F_W]>>], LAMBDA t : t[1] # BLANK)]
 =============================================================================
